@@ -1,9 +1,818 @@
-//! stub
-use serde_json::Value;
-use crate::engine::Ctx;
-pub const RULE_C12: &str = "";
-pub const RULE_C13: &str = "";
-pub const ASSUMPTIONS_C12: &[&str] = &[];
-pub const ASSUMPTIONS_C13: &[&str] = &[];
-pub fn run(_ctx: &Ctx, _inv: bool) {}
-pub fn replay(_part: &str, _case: &Value, _inv: bool) -> Result<(), String> { Err("not implemented".into()) }
+//! C12 — a virtual sign never panics; C13 — the virtual sign implements the sign-side state machine.
+//! Same generators and explorers; C12 judges only "returns normally" (+ the transfer clause),
+//! C13 compares every reply / state / page list / sign type with the reference model.
+
+use std::collections::HashMap;
+
+use flipdot_core::{Address, Message, PageFlipStyle, SignBus};
+use flipdot_testing::{VirtualSign, VirtualSignBus};
+use proptest::prelude::*;
+use serde::{Deserialize, Serialize};
+use serde_json::{json, Value};
+
+use crate::engine::{catch, h64, pick_idx, run_generated, Ctx, Stats};
+use crate::oracle::page::total_len;
+use crate::oracle::table::STATES;
+use crate::oracle::vsign::*;
+use crate::repr::M;
+
+pub const RULE_C12: &str = "histories over the C12 alphabet (every message kind for the sign's own and a foreign address, sign-side and unknown messages, data chunks of lengths 0..=255 at offsets 0 and non-0, chunk counts equal/below/above the true count and 0xFFFF, configuration blocks: the 11 real ones, tiny custom sizes, zero width/height, unknown family, Max3000 widths summing over 255, random bytes; a run-length operator up to 70000 repetitions; whole-transfer macros with one injected fault) explored (a) breadth-first over (implementation state, model state) pairs for tiny sizes to a fixed point under bounds on buffered bytes / stored pages / counted chunks, (b) by proptest random walks on single signs and on buses of 1..4 signs. Oracle: every process_message call returns (no unwind, Ok); after a count message in a receiving state the sign is in the corresponding failed or received state. Non-trivial = a history that enters a receiving state and contains an irregular element (lost/short/extra chunk, wrong count, non-standard configuration block, abandoned transfer); distinct by hash of the history (BFS: distinct states by construction)";
+pub const RULE_C13: &str = "the same histories as C12 (BFS over (implementation state, model state) pairs to a fixed point under bounds for both flip styles and tiny sizes, random walks with whole-transfer macros on tiny and real sign types); after every delivered message the reply, state(), pages() (bytes and dimensions) and - where the statement determines it - sign_type() are compared with a reference sign-side state machine written from the statement. Non-trivial = a transition taken from a state reached through at least one abandoned or irregular transfer; distinct by hash of the history (BFS: distinct (implementation, model) states by construction)";
+pub const ASSUMPTIONS_C12: &[&str] = &["panics are observed with catch_unwind around every process_message call; the harness is built with overflow checks on (as cargo test builds flipdot), the thorough tier also with checks off"];
+pub const ASSUMPTIONS_C13: &[&str] = &[
+    "the reference state machine in oracle/vsign.rs is a correct reading of the statement and of the State/Operation documentation",
+    "where the statement is silent (sign_type() during/after a failed configuration or after a configuration of zero blocks; the configured size in that same corner; hidden buffers) nothing is compared",
+];
+
+// ---------------------------------------------------------------------------------------
+// history representation
+
+#[derive(Serialize, Deserialize, Debug, Clone, PartialEq, Eq, Hash)]
+pub enum Block {
+    Real(u8),
+    Raw(Vec<u8>),
+}
+
+impl Block {
+    pub fn bytes(&self) -> Vec<u8> {
+        match self {
+            Block::Real(i) => BLOCKS[*i as usize % 11].to_vec(),
+            Block::Raw(b) => b.clone(),
+        }
+    }
+}
+
+#[derive(Serialize, Deserialize, Debug, Clone, Copy, PartialEq, Eq, Hash)]
+pub enum Fault {
+    None,
+    /// one chunk is lost
+    Drop(u16),
+    /// one chunk loses its last byte
+    Short(u16),
+    /// one chunk gets an extra byte
+    Long(u16),
+    /// one chunk is sent twice
+    Extra(u16),
+    /// announced count differs from the number of chunks sent
+    CountDelta(i8),
+    /// a chunk in the middle of a page claims offset 0
+    EarlyOffset0(u16),
+    /// the transfer is abandoned before the count message
+    NoCount,
+}
+
+#[derive(Serialize, Deserialize, Debug, Clone, PartialEq, Eq, Hash)]
+pub enum HOp {
+    Msg(M),
+    Repeat { msg: M, n: u32 },
+    /// request + configuration block + count, addressed to `addr`
+    Config { addr: u16, block: Block, fault: Fault },
+    /// request + `pages` pages of the sign's current size + count (+ pixels complete), addressed to `addr`
+    Pixels { addr: u16, pages: u8, seed: u64, fault: Fault, complete: bool },
+    /// the first `steps` messages of: show, query, query, load-next, query, query (repeating)
+    Flip { addr: u16, steps: u8 },
+}
+
+#[derive(Serialize, Deserialize, Debug, Clone, PartialEq, Eq, Hash)]
+pub struct HistoryCase {
+    pub addr: u16,
+    pub automatic: bool,
+    pub ops: Vec<HOp>,
+}
+
+fn flip(automatic: bool) -> PageFlipStyle {
+    if automatic {
+        PageFlipStyle::Automatic
+    } else {
+        PageFlipStyle::Manual
+    }
+}
+
+/// expand a macro op into messages, given the configured size the model currently has
+pub fn expand(op: &HOp, w: u32, h: u32) -> Vec<M> {
+    match op {
+        HOp::Msg(m) => vec![m.clone()],
+        HOp::Repeat { msg, n } => vec![msg.clone(); (*n).min(8) as usize], // only used for display; interpreter handles n
+        HOp::Config { addr, block, fault } => {
+            let mut v = vec![M::Req(*addr, O_RECEIVE_CONFIG)];
+            let b = block.bytes();
+            let mut chunks: Vec<M> = vec![M::Data { off: 0, data: b }];
+            let mut count: i64 = 1;
+            apply_fault(&mut chunks, &mut count, *fault);
+            v.extend(chunks);
+            if !matches!(fault, Fault::NoCount) {
+                v.push(M::Count(count.rem_euclid(65536) as u16));
+            }
+            v
+        }
+        HOp::Flip { addr, steps } => {
+            let cycle = [
+                M::Req(*addr, O_SHOW_LOADED_PAGE),
+                M::Query(*addr),
+                M::Query(*addr),
+                M::Req(*addr, O_LOAD_NEXT_PAGE),
+                M::Query(*addr),
+                M::Query(*addr),
+            ];
+            (0..*steps as usize).map(|i| cycle[i % 6].clone()).collect()
+        }
+        HOp::Pixels { addr, pages, seed, fault, complete } => {
+            let mut v = vec![M::Req(*addr, O_RECEIVE_PIXELS)];
+            let size = if w > 0 && h > 0 { total_len(w, h).min(65536) } else { 16 };
+            let mut chunks: Vec<M> = vec![];
+            for p in 0..*pages {
+                let bytes: Vec<u8> = (0..size).map(|i| h64(&(*seed, p, i as u64)) as u8).collect();
+                for (i, ch) in bytes.chunks(16).enumerate() {
+                    chunks.push(M::Data { off: (i * 16) as u16, data: ch.to_vec() });
+                }
+            }
+            let mut count: i64 = chunks.len() as i64;
+            apply_fault(&mut chunks, &mut count, *fault);
+            v.extend(chunks);
+            if !matches!(fault, Fault::NoCount) {
+                v.push(M::Count(count.rem_euclid(65536) as u16));
+                if *complete {
+                    v.push(M::PixelsComplete(*addr));
+                }
+            }
+            v
+        }
+    }
+}
+
+fn apply_fault(chunks: &mut Vec<M>, count: &mut i64, fault: Fault) {
+    let n = chunks.len();
+    match fault {
+        Fault::None | Fault::NoCount => {}
+        Fault::Drop(sel) => {
+            if n > 0 {
+                chunks.remove(pick_idx(sel, n));
+            }
+        }
+        Fault::Short(sel) => {
+            if n > 0 {
+                if let M::Data { data, .. } = &mut chunks[pick_idx(sel, n)] {
+                    data.pop();
+                }
+            }
+        }
+        Fault::Long(sel) => {
+            if n > 0 {
+                if let M::Data { data, .. } = &mut chunks[pick_idx(sel, n)] {
+                    data.push(0x77);
+                }
+            }
+        }
+        Fault::Extra(sel) => {
+            if n > 0 {
+                let i = pick_idx(sel, n);
+                let c = chunks[i].clone();
+                chunks.insert(i, c);
+                *count += 1; // the sender counts what it sent; the page is still malformed
+            }
+        }
+        Fault::CountDelta(d) => *count += d as i64,
+        Fault::EarlyOffset0(sel) => {
+            if n > 1 {
+                let i = 1 + pick_idx(sel, n - 1);
+                if let M::Data { off, .. } = &mut chunks[i] {
+                    *off = 0;
+                }
+            }
+        }
+    }
+}
+
+// ---------------------------------------------------------------------------------------
+// one step of (implementation, model)
+
+#[derive(Clone, Copy, PartialEq, Eq)]
+pub enum Mode {
+    C12,
+    C13,
+}
+
+fn describe(m: &M) -> String {
+    m.short()
+}
+
+fn compare_pages(sign: &VirtualSign<'_>, model: &SignModel) -> Result<(), String> {
+    let pages = sign.pages();
+    if pages.len() != model.pages.len() {
+        return Err(format!("sign stores {} pages, the state machine {}", pages.len(), model.pages.len()));
+    }
+    for (i, (p, q)) in pages.iter().zip(model.pages.iter()).enumerate() {
+        if p.width() != q.w || p.height() != q.h || p.as_bytes() != &q.bytes[..] {
+            return Err(format!(
+                "stored page {i} differs: sign has {}x{} ({} bytes), the state machine {}x{} ({} bytes){}",
+                p.width(),
+                p.height(),
+                p.as_bytes().len(),
+                q.w,
+                q.h,
+                q.bytes.len(),
+                if p.as_bytes() != &q.bytes[..] { ", bytes differ" } else { "" }
+            ));
+        }
+    }
+    Ok(())
+}
+
+/// Deliver `m` to both; Err(message) on a violation of the property selected by `mode`.
+pub fn step_pair(sign: &mut VirtualSign<'static>, model: &mut SignModel, m: &M, msg: &Message<'static>, mode: Mode, check_pages: bool) -> Result<(), String> {
+    let was_state = model.state;
+    let got = catch(|| sign.process_message(msg)).map_err(|p| {
+        format!(
+            "sig=panic:{}; process_message({}) panicked in model state {:?}: {p}",
+            panic_site(&p),
+            describe(m),
+            STATES[was_state as usize].0
+        )
+    })?;
+    let want = model.step(m);
+    match mode {
+        Mode::C12 => {
+            if let M::Count(_) = m {
+                let s = state_idx(sign.state());
+                if was_state == S_CONFIG_IN_PROGRESS && !(s == S_CONFIG_RECEIVED || s == S_CONFIG_FAILED) {
+                    return Err(format!("after the count message a configuring sign is in state {:?}, not received/failed", sign.state()));
+                }
+                if was_state == S_PIXELS_IN_PROGRESS && !(s == S_PIXELS_RECEIVED || s == S_PIXELS_FAILED) {
+                    return Err(format!("after the count message a pixel-receiving sign is in state {:?}, not received/failed", sign.state()));
+                }
+            }
+            Ok(())
+        }
+        Mode::C13 => {
+            let got_m = got.as_ref().map(M::from_message);
+            if got_m != want {
+                return Err(format!(
+                    "{} in state {:?}: sign replies {:?}, the state machine replies {:?}",
+                    describe(m),
+                    STATES[was_state as usize].0,
+                    got_m.map(|x| x.short()),
+                    want.map(|x| x.short())
+                ));
+            }
+            if state_idx(sign.state()) != model.state {
+                return Err(format!(
+                    "{} in state {:?}: sign is now {:?}, the state machine {:?}",
+                    describe(m),
+                    STATES[was_state as usize].0,
+                    sign.state(),
+                    STATES[model.state as usize].0
+                ));
+            }
+            if check_pages && model.dims_determined {
+                compare_pages(sign, model).map_err(|e| format!("after {} in state {:?}: {e}", describe(m), STATES[was_state as usize].0))?;
+            }
+            if let TypeKnowledge::Is(t) = model.sign_type {
+                let want_t = t.map(|i| TYPES[i].0);
+                if sign.sign_type() != want_t {
+                    return Err(format!(
+                        "after {}: sign_type() is {:?}, the state machine says {:?}",
+                        describe(m),
+                        sign.sign_type(),
+                        want_t
+                    ));
+                }
+            }
+            Ok(())
+        }
+    }
+}
+
+/// the file:line of a captured panic description ("msg @ file:line")
+fn panic_site(p: &str) -> String {
+    p.rsplit(" @ ").next().unwrap_or("").rsplit('/').next().unwrap_or("").to_string()
+}
+
+/// Run a whole history on a single sign.
+pub fn check_history(c: &HistoryCase, mode: Mode, st: &mut Stats) -> Result<(), String> {
+    let mut sign = VirtualSign::new(Address(c.addr), flip(c.automatic));
+    let mut model = SignModel::new(c.addr, c.automatic);
+    let mut entered_receiving = false;
+    let mut nontrivial_transitions = 0u64;
+    let mut step_no = 0usize;
+    for (i, op) in c.ops.iter().enumerate() {
+        match op {
+            HOp::Repeat { msg, n } => {
+                let message = msg.to_message();
+                for k in 0..*n {
+                    let last = k + 1 == *n;
+                    step_pair(&mut sign, &mut model, msg, &message, mode, last)
+                        .map_err(|e| format!("op {i} (repetition {k} of {n}): {e}"))?;
+                    st.eval();
+                    if model.irregular {
+                        nontrivial_transitions += 1;
+                    }
+                    entered_receiving |= model.receiving();
+                }
+                step_no += *n as usize;
+            }
+            other => {
+                for m in expand(other, model.w, model.h) {
+                    let message = m.to_message();
+                    step_pair(&mut sign, &mut model, &m, &message, mode, true).map_err(|e| format!("op {i} (message {step_no}): {e}"))?;
+                    st.eval();
+                    step_no += 1;
+                    if model.irregular {
+                        nontrivial_transitions += 1;
+                    }
+                    entered_receiving |= model.receiving();
+                }
+            }
+        }
+    }
+    let nontrivial = entered_receiving && model.irregular;
+    if nontrivial {
+        st.nontrivial(h64(c));
+        st.class("history:receiving+irregular");
+    } else if entered_receiving {
+        st.class("history:receiving-regular");
+    } else {
+        st.class("history:never-receiving");
+    }
+    st.class_n("transitions-after-irregular-transfer", nontrivial_transitions);
+    st.class(&format!("final-state:{:?}", STATES[model.state as usize].0));
+    if !model.pages.is_empty() {
+        st.class("history:ends-with-stored-pages");
+    }
+    if st.want_sample() && nontrivial && c.ops.len() <= 12 {
+        st.sample(json!({"addr": c.addr, "automatic": c.automatic, "ops": c.ops.iter().map(short_op).collect::<Vec<_>>(), "final_state": format!("{:?}", STATES[model.state as usize].0), "stored_pages": model.pages.len()}));
+    }
+    Ok(())
+}
+
+pub fn short_op(op: &HOp) -> String {
+    match op {
+        HOp::Msg(m) => m.short(),
+        HOp::Repeat { msg, n } => format!("{} x{n}", msg.short()),
+        HOp::Config { addr, block, fault } => format!(
+            "ConfigTransfer({addr:#x},{},{fault:?})",
+            match block {
+                Block::Real(i) => format!("{:?}", TYPES[*i as usize % 11].0),
+                Block::Raw(b) => format!("raw{:02X?}", &b[..b.len().min(10)]),
+            }
+        ),
+        HOp::Pixels { addr, pages, fault, complete, .. } => format!("PixelTransfer({addr:#x},{pages} pages,{fault:?},complete={complete})"),
+        HOp::Flip { addr, steps } => format!("FlipCycle({addr:#x},{steps} messages)"),
+    }
+}
+
+// ---------------------------------------------------------------------------------------
+// bus walks (C12 only): the same histories delivered through VirtualSignBus
+
+#[derive(Serialize, Deserialize, Debug, Clone, PartialEq, Eq, Hash)]
+pub struct BusHistoryCase {
+    pub signs: Vec<(u16, bool)>,
+    pub ops: Vec<HOp>,
+}
+
+pub fn check_bus_history(c: &BusHistoryCase, st: &mut Stats) -> Result<(), String> {
+    // distinct addresses are a documented precondition of a bus
+    let mut seen = std::collections::HashSet::new();
+    let signs: Vec<(u16, bool)> = c.signs.iter().filter(|(a, _)| seen.insert(*a)).cloned().collect();
+    let mut bus = VirtualSignBus::new(signs.iter().map(|(a, f)| VirtualSign::new(Address(*a), flip(*f))));
+    // models only to size the pixel transfers (dims follow the first sign)
+    let mut models: Vec<SignModel> = signs.iter().map(|(a, f)| SignModel::new(*a, *f)).collect();
+    let mut irregular = false;
+    let mut receiving = false;
+    for (i, op) in c.ops.iter().enumerate() {
+        let (w, h) = match op {
+            HOp::Pixels { addr, .. } => models.iter().find(|m| m.addr == *addr).map(|m| (m.w, m.h)).unwrap_or((0, 0)),
+            _ => (0, 0),
+        };
+        let (msgs, reps): (Vec<M>, u32) = match op {
+            HOp::Repeat { msg, n } => (vec![msg.clone()], *n),
+            other => (expand(other, w, h), 1),
+        };
+        for m in &msgs {
+            let message = m.to_message();
+            for k in 0..reps {
+                let r = catch(|| bus.process_message(message.clone()).map(|_| ()).map_err(|e| e.to_string()));
+                st.eval();
+                match r {
+                    Ok(Ok(())) => {}
+                    Ok(Err(e)) => return Err(format!("op {i}: VirtualSignBus::process_message({}) returned an error: {e}", m.short())),
+                    Err(p) => {
+                        return Err(format!(
+                            "sig=panic:{}; op {i} (repetition {k}): VirtualSignBus::process_message({}) panicked: {p}",
+                            panic_site(&p),
+                            m.short()
+                        ))
+                    }
+                }
+                for md in models.iter_mut() {
+                    let _ = md.step(m);
+                    irregular |= md.irregular;
+                    receiving |= md.receiving();
+                }
+            }
+        }
+    }
+    if irregular && receiving {
+        st.nontrivial(h64(c));
+        st.class("bus-history:receiving+irregular");
+    } else {
+        st.class("bus-history:other");
+    }
+    Ok(())
+}
+
+// ---------------------------------------------------------------------------------------
+// generators
+
+pub fn tiny_block(w: u8, h: u8) -> Vec<u8> {
+    // Horizon layout with an id no real sign uses: H at byte 5, W at byte 7
+    vec![0x08, 0xEE, 0, 0, 0, h, 0, w, 1, 0, w, 0, 0, 0, 0, 0]
+}
+
+pub fn tiny_block_max3000(w1: u8, w2: u8, h: u8) -> Vec<u8> {
+    vec![0x04, 0xEE, 0, 0, h, w1, w2, 0, 0, 8, 0, 0, 0, 0, 0, 0]
+}
+
+fn block_strategy() -> impl Strategy<Value = Block> {
+    prop_oneof![
+        6 => (0u8..11).prop_map(Block::Real),
+        4 => Just(Block::Raw(tiny_block(12, 8))),
+        2 => Just(Block::Raw(tiny_block_max3000(28, 0, 8))),
+        1 => Just(Block::Raw(tiny_block(0, 8))),
+        1 => Just(Block::Raw(tiny_block(12, 0))),
+        1 => Just(Block::Raw(vec![0x0F, 0x99, 0, 0x0F, 9, 0x1C, 0x1C, 0, 0, 0x10, 0, 0, 0, 0, 0, 0])),
+        1 => Just(Block::Raw(vec![0x04, 0x99, 0, 0, 0x10, 0x64, 0x64, 0x64, 0, 0x10, 0, 0, 0, 0, 0, 0])),
+        1 => Just(Block::Raw(vec![0x04, 0x99, 0, 0, 0xFF, 0xFF, 0xFF, 0xFF, 0xFF, 0xFF, 0, 0, 0, 0, 0, 0])),
+        1 => Just(Block::Raw(vec![0x08, 0x99, 0, 0, 0, 0xFF, 0, 0xFF, 0xFF, 0xFF, 0xFF, 0xFF, 0, 0, 0, 0])),
+        2 => proptest::collection::vec(any::<u8>(), 16).prop_map(|mut b| { b[0] = if b[0] & 1 == 0 { 4 } else { 8 }; Block::Raw(b) }),
+        1 => proptest::collection::vec(any::<u8>(), 16).prop_map(Block::Raw),
+    ]
+}
+
+fn fault_strategy() -> impl Strategy<Value = Fault> {
+    prop_oneof![
+        8 => Just(Fault::None),
+        1 => any::<u16>().prop_map(Fault::Drop),
+        1 => any::<u16>().prop_map(Fault::Short),
+        1 => any::<u16>().prop_map(Fault::Long),
+        1 => any::<u16>().prop_map(Fault::Extra),
+        2 => prop_oneof![Just(1i8), Just(-1i8), any::<i8>()].prop_map(Fault::CountDelta),
+        1 => any::<u16>().prop_map(Fault::EarlyOffset0),
+        1 => Just(Fault::NoCount),
+    ]
+}
+
+fn addr_choice(own: u16, others: Vec<u16>) -> proptest::sample::Select<u16> {
+    let mut v = vec![own; 6];
+    v.extend(others);
+    proptest::sample::select(v)
+}
+
+fn msg_strategy(own: u16, others: Vec<u16>) -> impl Strategy<Value = M> {
+    let a = addr_choice(own, others);
+    let data_payload = prop_oneof![
+        4 => block_strategy().prop_map(|b| b.bytes()),
+        4 => Just(vec![0xABu8; 16]),
+        2 => proptest::sample::select(vec![0usize, 1, 15, 17, 32, 255]).prop_flat_map(|n| proptest::collection::vec(any::<u8>(), n)),
+        1 => (0usize..=255).prop_flat_map(|n| proptest::collection::vec(any::<u8>(), n)),
+    ];
+    prop_oneof![
+        3 => a.clone().prop_map(M::Hello),
+        3 => a.clone().prop_map(M::Query),
+        1 => a.clone().prop_map(M::Goodbye),
+        2 => a.clone().prop_map(M::PixelsComplete),
+        8 => (a.clone(), 0u8..6).prop_map(|(a, o)| M::Req(a, o)),
+        1 => (a.clone(), 0u8..13).prop_map(|(a, s)| M::Report(a, s)),
+        1 => (a.clone(), 0u8..6).prop_map(|(a, o)| M::Ack(a, o)),
+        1 => (a.clone(), 7u8..=255, proptest::collection::vec(any::<u8>(), 0..4)).prop_map(|(addr, ty, data)| M::Unknown { addr, ty, data }),
+        8 => (proptest::sample::select(vec![0u16, 0, 16, 16, 32, 0xFFF0, 1]), data_payload).prop_map(|(off, data)| M::Data { off, data }),
+        4 => prop_oneof![4 => 0u16..8, 1 => Just(0xFFFFu16), 1 => any::<u16>()].prop_map(M::Count),
+    ]
+}
+
+fn hop_strategy(own: u16, others: Vec<u16>) -> impl Strategy<Value = HOp> {
+    let a = addr_choice(own, others.clone());
+    prop_oneof![
+        12 => msg_strategy(own, others.clone()).prop_map(HOp::Msg),
+        3 => (a.clone(), block_strategy(), fault_strategy()).prop_map(|(addr, block, fault)| HOp::Config { addr, block, fault }),
+        4 => (a.clone(), 0u8..4, any::<u64>(), fault_strategy(), any::<bool>())
+            .prop_map(|(addr, pages, seed, fault, complete)| HOp::Pixels { addr, pages, seed, fault, complete }),
+        2 => (a.clone(), 1u8..14).prop_map(|(addr, steps)| HOp::Flip { addr, steps }),
+        1 => (msg_strategy(own, others), prop_oneof![6 => 2u32..40, 1 => Just(65535u32), 1 => Just(65536u32), 1 => 65537u32..70000])
+            .prop_map(|(msg, n)| HOp::Repeat { msg, n }),
+    ]
+}
+
+pub fn history_strategy(max_ops: usize) -> impl Strategy<Value = HistoryCase> {
+    (proptest::sample::select(vec![0u16, 3, 0x21, 0x100, 0x2100, 0xFFFF]), any::<bool>())
+        .prop_flat_map(move |(addr, automatic)| {
+            let others = vec![addr.wrapping_add(1), addr.swap_bytes() ^ 0x0100];
+            (Just((addr, automatic)), proptest::collection::vec(hop_strategy(addr, others), 1..max_ops))
+        })
+        .prop_map(|((addr, automatic), ops)| HistoryCase { addr, automatic, ops })
+}
+
+fn bus_history_strategy(max_ops: usize) -> impl Strategy<Value = BusHistoryCase> {
+    proptest::sample::subsequence(vec![0u16, 1, 3, 0x0300, 0xFFFF, 0x21], 1..=4)
+        .prop_flat_map(move |addrs| {
+            let n = addrs.len();
+            let own = addrs[0];
+            let mut others = addrs[1..].to_vec();
+            others.push(0x7777); // nobody
+            (
+                Just(addrs),
+                proptest::collection::vec(any::<bool>(), n),
+                proptest::collection::vec(hop_strategy(own, others), 1..max_ops),
+            )
+        })
+        .prop_map(|(addrs, flips, ops)| BusHistoryCase { signs: addrs.into_iter().zip(flips).collect(), ops })
+}
+
+// ---------------------------------------------------------------------------------------
+// breadth-first search over (implementation state, model state)
+
+struct Node {
+    sign: VirtualSign<'static>,
+    model: SignModel,
+    id: u64,
+}
+
+pub struct BfsBounds {
+    pub max_pages: usize,
+    pub max_pending: usize,
+    pub max_chunks: u16,
+    pub max_states: usize,
+}
+
+pub fn bfs_alphabet(own: u16, foreign: u16, rich: bool) -> Vec<M> {
+    let mut v = vec![M::Hello(own), M::Query(own), M::Goodbye(own), M::PixelsComplete(own)];
+    for o in 0..6 {
+        v.push(M::Req(own, o));
+    }
+    v.extend([
+        M::Hello(foreign),
+        M::Query(foreign),
+        M::Goodbye(foreign),
+        M::PixelsComplete(foreign),
+        M::Req(foreign, O_START_RESET),
+        M::Req(foreign, O_RECEIVE_PIXELS),
+        M::Req(foreign, O_RECEIVE_CONFIG),
+        M::Report(own, S_UNCONFIGURED),
+        M::Ack(own, O_START_RESET),
+        M::Unknown { addr: own, ty: 7, data: vec![1] },
+    ]);
+    let tiny = tiny_block(12, 8); // 12x8: 16 data bytes -> one 16-byte chunk per page
+    let two = tiny_block_max3000(20, 8, 8); // 28x8: 32 bytes -> two chunks per page
+    let mut payloads: Vec<Vec<u8>> = vec![tiny, two, vec![0xAB; 16], vec![0xCD; 15], vec![0xEF; 17], vec![]];
+    if rich {
+        payloads.push(tiny_block(0, 8));
+        payloads.push(vec![0x0F, 0x99, 0, 0x0F, 9, 0x1C, 0x1C, 0, 0, 0x10, 0, 0, 0, 0, 0, 0]);
+        payloads.push(vec![0x04, 0x99, 0, 0, 0x10, 0x64, 0x64, 0x64, 0, 0x10, 0, 0, 0, 0, 0, 0]);
+        payloads.push(BLOCKS[5].to_vec());
+    }
+    for p in &payloads {
+        for off in [0u16, 16] {
+            v.push(M::Data { off, data: p.clone() });
+        }
+    }
+    if !rich {
+        // configuration-only extras at offset 0 (as pixel data they are just another 16-byte chunk)
+        v.push(M::Data { off: 0, data: tiny_block(0, 8) });
+        v.push(M::Data { off: 0, data: vec![0x0F, 0x99, 0, 0x0F, 9, 0x1C, 0x1C, 0, 0, 0x10, 0, 0, 0, 0, 0, 0] });
+        v.push(M::Data { off: 0, data: vec![0x04, 0x99, 0, 0, 0x10, 0x64, 0x64, 0x64, 0, 0x10, 0, 0, 0, 0, 0, 0] });
+    }
+    for n in [0u16, 1, 2, 3, 4, 0xFFFF] {
+        v.push(M::Count(n));
+    }
+    v
+}
+
+pub struct BfsResult {
+    pub states: u64,
+    pub transitions: u64,
+    pub pruned: u64,
+    pub fixed_point: bool,
+    pub depth: u32,
+    pub nontrivial_transitions: u64,
+    pub coverage: std::collections::BTreeMap<String, u64>,
+}
+
+fn node_key(sign: &VirtualSign<'static>, model: &SignModel) -> u64 {
+    h64(&(sign, model))
+}
+
+fn msg_class(m: &M, own: u16) -> &'static str {
+    match m {
+        M::Hello(a) | M::Query(a) if *a == own => "query",
+        M::Req(a, _) if *a == own => "request",
+        M::Goodbye(a) if *a == own => "goodbye",
+        M::PixelsComplete(a) if *a == own => "pixels-complete",
+        M::Data { .. } => "data",
+        M::Count(_) => "count",
+        _ => "foreign-or-sign-side",
+    }
+}
+
+/// Returns Err((history, message)) with a shortest history on a violation.
+pub fn bfs(ctx: &Ctx, own: u16, automatic: bool, alphabet: &[M], bounds: &BfsBounds, mode: Mode) -> Result<BfsResult, (HistoryCase, String)> {
+    let messages: Vec<Message<'static>> = alphabet.iter().map(|m| m.to_message()).collect();
+    let root_sign = VirtualSign::new(Address(own), flip(automatic));
+    let root_model = SignModel::new(own, automatic);
+    let root_id = node_key(&root_sign, &root_model);
+    let mut visited: HashMap<u64, (u64, u16)> = HashMap::new();
+    visited.insert(root_id, (root_id, u16::MAX));
+    let mut frontier = vec![Node { sign: root_sign, model: root_model, id: root_id }];
+    let mut res = BfsResult {
+        states: 1,
+        transitions: 0,
+        pruned: 0,
+        fixed_point: false,
+        depth: 0,
+        nontrivial_transitions: 0,
+        coverage: Default::default(),
+    };
+    let history_of = |visited: &HashMap<u64, (u64, u16)>, mut id: u64, last: Option<u16>| -> HistoryCase {
+        let mut ops: Vec<HOp> = vec![];
+        if let Some(l) = last {
+            ops.push(HOp::Msg(alphabet[l as usize].clone()));
+        }
+        while let Some(&(parent, op)) = visited.get(&id) {
+            if op == u16::MAX {
+                break;
+            }
+            ops.push(HOp::Msg(alphabet[op as usize].clone()));
+            id = parent;
+        }
+        ops.reverse();
+        HistoryCase { addr: own, automatic, ops }
+    };
+
+    while !frontier.is_empty() {
+        if ctx.stopped() {
+            break;
+        }
+        res.depth += 1;
+        let workers = ctx.workers.min(frontier.len()).max(1);
+        let chunk = (frontier.len() + workers - 1) / workers;
+        type Out = (Vec<(Node, u64, u16)>, u64, u64, u64, std::collections::BTreeMap<String, u64>, Option<(u64, u16, String)>);
+        let outs: Vec<Out> = std::thread::scope(|sc| {
+            let handles: Vec<_> = frontier
+                .chunks(chunk)
+                .map(|part| {
+                    let messages = &messages;
+                    sc.spawn(move || {
+                        let mut succ: Vec<(Node, u64, u16)> = vec![];
+                        let mut transitions = 0u64;
+                        let mut pruned = 0u64;
+                        let mut nontrivial = 0u64;
+                        let mut cov: std::collections::BTreeMap<String, u64> = Default::default();
+                        for node in part {
+                            for (oi, m) in alphabet.iter().enumerate() {
+                                let mut sign = node.sign.clone();
+                                let mut model = node.model.clone();
+                                transitions += 1;
+                                if node.model.irregular {
+                                    nontrivial += 1;
+                                }
+                                *cov.entry(format!("{:?} x {}", STATES[node.model.state as usize].0, msg_class(m, own))).or_insert(0) += 1;
+                                if let Err(e) = step_pair(&mut sign, &mut model, m, &messages[oi], mode, true) {
+                                    return (succ, transitions, pruned, nontrivial, cov, Some((node.id, oi as u16, e)));
+                                }
+                                if model.pages.len() > bounds.max_pages || model.pending.len() > bounds.max_pending || model.chunks > bounds.max_chunks {
+                                    pruned += 1;
+                                    continue;
+                                }
+                                let id = node_key(&sign, &model);
+                                if id != node.id {
+                                    succ.push((Node { sign, model, id }, node.id, oi as u16));
+                                }
+                            }
+                        }
+                        (succ, transitions, pruned, nontrivial, cov, None)
+                    })
+                })
+                .collect();
+            handles.into_iter().map(|h| h.join().expect("bfs worker")).collect()
+        });
+        let mut next: Vec<Node> = vec![];
+        let mut violation: Option<(u64, u16, String)> = None;
+        for (succ, t, p, nt, cov, viol) in outs {
+            res.transitions += t;
+            res.pruned += p;
+            res.nontrivial_transitions += nt;
+            for (k, v) in cov {
+                *res.coverage.entry(k).or_insert(0) += v;
+            }
+            if violation.is_none() {
+                violation = viol;
+            }
+            for (node, parent, op) in succ {
+                if !visited.contains_key(&node.id) {
+                    visited.insert(node.id, (parent, op));
+                    next.push(node);
+                }
+            }
+        }
+        if let Some((id, op, msg)) = violation {
+            return Err((history_of(&visited, id, Some(op)), msg));
+        }
+        res.states = visited.len() as u64;
+        if visited.len() > bounds.max_states {
+            frontier = next;
+            let _ = frontier;
+            return Ok(res); // budget exhausted before the fixed point
+        }
+        frontier = next;
+    }
+    res.fixed_point = !ctx.stopped();
+    Ok(res)
+}
+
+// ---------------------------------------------------------------------------------------
+
+fn run_bfs_part(ctx: &Ctx, name: &str, own: u16, automatic: bool, rich: bool, bounds: BfsBounds, mode: Mode) {
+    if ctx.stopped() {
+        return;
+    }
+    let alphabet = bfs_alphabet(own, own ^ 0x0100 ^ 1, rich);
+    match bfs(ctx, own, automatic, &alphabet, &bounds, mode) {
+        Ok(r) => {
+            let mut st = Stats::new();
+            st.evals(r.transitions);
+            // distinct (implementation, model) states reached through an irregular transfer are counted through
+            // their transitions; distinct by construction (each state expanded once)
+            st.nontrivial_enumerated(r.nontrivial_transitions);
+            st.class_n("bfs-transitions", r.transitions);
+            st.class_n("bfs-transitions-from-irregular-states", r.nontrivial_transitions);
+            ctx.merge(name, st);
+            ctx.extra_add("states", r.states);
+            ctx.extra_add("transitions", r.transitions);
+            ctx.part_done(
+                name,
+                r.fixed_point,
+                json!({"own": own, "automatic": automatic, "alphabet": alphabet.len(), "states": r.states, "transitions": r.transitions, "pruned_by_bounds": r.pruned,
+                       "fixed_point_under_bounds": r.fixed_point, "depth": r.depth,
+                       "bounds": {"stored_pages": bounds.max_pages, "buffered_bytes": bounds.max_pending, "counted_chunks": bounds.max_chunks},
+                       "state_x_message_class": r.coverage}),
+            );
+            if !r.fixed_point && !ctx.stopped() {
+                ctx.inconclusive(format!("{name}: state budget {} exhausted before the fixed point", bounds.max_states));
+            }
+        }
+        Err((history, msg)) => {
+            ctx.fail(name, serde_json::to_value(&history).unwrap(), msg);
+        }
+    }
+}
+
+pub fn run(ctx: &Ctx, c13: bool) {
+    let mode = if c13 { Mode::C13 } else { Mode::C12 };
+    let thorough = ctx.tier == crate::engine::Tier::Thorough;
+    // (a) BFS to a fixed point, both flip styles
+    for automatic in [false, true] {
+        run_bfs_part(
+            ctx,
+            if automatic { "bfs-tiny-automatic" } else { "bfs-tiny-manual" },
+            5,
+            automatic,
+            false,
+            BfsBounds {
+                max_pages: if thorough { 3 } else { 2 },
+                max_pending: if thorough { 66 } else { 50 },
+                max_chunks: if thorough { 5 } else { 4 },
+                max_states: 30_000_000,
+            },
+            mode,
+        );
+    }
+    if thorough {
+        run_bfs_part(
+            ctx,
+            "bfs-rich-manual",
+            0x0100,
+            false,
+            true,
+            BfsBounds { max_pages: 2, max_pending: 49, max_chunks: 4, max_states: 30_000_000 },
+            mode,
+        );
+    }
+
+    // (b) random walks on a single sign
+    run_generated(ctx, "walk", ctx.tier.pick(30_000, 1_000_000), || history_strategy(60), |c, st| check_history(c, mode, st));
+    run_generated(ctx, "walk-long", ctx.tier.pick(600, 20_000), || history_strategy(400), |c, st| check_history(c, mode, st));
+
+    // (c) the same alphabet through a bus of 1..4 signs (C12: returns normally)
+    if !c13 {
+        run_generated(ctx, "bus-walk", ctx.tier.pick(10_000, 300_000), || bus_history_strategy(60), |c, st| check_bus_history(c, st));
+    }
+}
+
+pub fn replay(part: &str, case: &Value, c13: bool) -> Result<(), String> {
+    let mode = if c13 { Mode::C13 } else { Mode::C12 };
+    let mut st = Stats::new();
+    if part == "bus-walk" {
+        let c: BusHistoryCase = serde_json::from_value(case.clone()).map_err(|e| format!("bad case: {e}"))?;
+        return check_bus_history(&c, &mut st);
+    }
+    let c: HistoryCase = serde_json::from_value(case.clone()).map_err(|e| format!("bad case: {e}"))?;
+    check_history(&c, mode, &mut st)
+}
